@@ -24,7 +24,7 @@ CLAIM = dict(
 
 STATE_TYPES = {"Source", "InterfaceGenerator", "Markdown", "String"}
 PASS = ["trim", "trim_start", "trim_end", "deref", "as_str", "as_ref", "into", "borrow", "must_use", "to_string",
-        "into_iter"]
+        "into_iter", "as_deref"]
 IDENTITY_METHODS = {"to_string", "clone", "as_str", "to_owned", "as_ref", "into", "borrow", "deref"}
 
 
@@ -58,10 +58,34 @@ def origins_multi(f, op, depth=4):
                 p = payload["p"]
                 base = through_place(f, p)
                 out.append(base)
+            elif kind == "assign" and payload["k"] == "agg":
+                out.append({"kind": "agg", "rv": payload})
             else:
                 out.append({"kind": "unknown"})
         return out
     return [o]
+
+
+def option_sources(f, op, depth=4):
+    """origins of a value that is `opt` or a constant placeholder: looks through Option::unwrap_or(opt, c),
+    unwrap_or_default(opt) and map_or(opt, c, <borrowing fn>) in addition to origins_multi()"""
+    out = []
+    for o in origins_multi(f, op):
+        if o.get("kind") == "call" and depth > 0 and o["call"].args:
+            call = o["call"]
+            if call.matches("Option::unwrap_or") and len(call.args) == 2:
+                out += option_sources(f, call.args[0], depth - 1) + option_sources(f, call.args[1], depth - 1)
+                continue
+            if call.matches("Option::unwrap_or_default") and len(call.args) == 1:
+                out += option_sources(f, call.args[0], depth - 1) + [{"kind": "const", "s": ""}]
+                continue
+            if call.matches("Option::map_or") and len(call.args) == 3:
+                fn_ = f.origin(call.args[2])
+                if fn_.get("kind") == "const" and re.search(r"(as_str|deref|as_ref|borrow)$", mir.norm(str(fn_.get("fn", "")))):
+                    out += option_sources(f, call.args[0], depth - 1) + option_sources(f, call.args[1], depth - 1)
+                    continue
+        out.append(o)
+    return out
 
 
 def through_place(f, p):
@@ -446,7 +470,7 @@ def r1(rep, c):
                nm == "<std::str::Lines as std::iter::Iterator>::next", nm, f.loc(nx.bb))
         it = through(f, nx.args[0])
         ok = it.get("kind") == "call" and it["call"].matches("lines")
-        srcs = origins_multi(f, it["call"].args[0]) if ok else []
+        srcs = option_sources(f, it["call"].args[0]) if ok else []
         good = bool(srcs) and all((s.get("kind") == "const" and "s" in s) or
                                   (s.get("kind") == "arg" and s.get("n") == da and ".contents" in s.get("proj", []))
                                   for s in srcs)
@@ -590,7 +614,24 @@ def is_tagend(ty):
 def r2(rep, c):
     f = c.method("Markdown", "finish", trait="WorldGenerator")
     rep.saw(f)
-    wraps = f.aggregates("Tag", "Link")
+    # construction sites: Tag::Link built in finish itself, or by a free helper of this crate called from finish
+    # (site = the call block; the helper's dest_url must be one of its parameters)
+    wraps = [(bb, rv["ops"][rv["fields"].index("dest_url")] if "dest_url" in rv.get("fields", []) else None)
+             for bb, i, rv, s in f.aggregates("Tag", "Link")]
+    for call in f.calls():
+        if not any(n_.startswith("crate::") for n_ in call.names()):
+            continue
+        g = next((h for h in c.fns.values() if h is not f and h.path in call.names()), None)
+        if g is None or not g.aggregates("Tag", "Link"):
+            continue
+        for gb, gi, grv, gs in g.aggregates("Tag", "Link"):
+            dop = None
+            if "dest_url" in grv.get("fields", []):
+                og = through(g, grv["ops"][grv["fields"].index("dest_url")])
+                if og.get("kind") == "arg" and 1 <= og.get("n", 0) <= len(call.args):
+                    dop = call.args[og["n"] - 1]
+            wraps.append((call.bb, dop))
+        rep.saw(g)
     rep.floor("R29.2", "Tag::Link construction sites in Markdown::finish", len(wraps), 1)
     heads = [x.bb for x in f.calls("Iterator::next") if "Parser" in x.callee]
     rep.ob("R29.2", "finish: one event loop over the pulldown-cmark parser", len(heads) == 1 and f.in_cycle(heads[0]),
@@ -599,10 +640,9 @@ def r2(rep, c):
         return
     head = heads[0]
 
-    flags = set()
-    for n, (bb, i, rv, s) in enumerate(wraps):
+    def false_flag_guard(site):
         found = None
-        for sw, vals, o in f.guard_edges(bb):
+        for sw, vals, o in f.guard_edges(site):
             if f.term(sw).get("dty") != "bool":
                 continue
             fr = flag_read(f, sw)
@@ -612,14 +652,53 @@ def r2(rep, c):
             want_false = is_true_edge(vals) if neg else is_false_edge(vals)
             if want_false and len([d for d in f.defs.get(l, []) if d[2] == "assign"]) >= 2:
                 found = (l, rb, sw)
+        return found
+
+    def deferred_guard(site):
+        """the site runs only when an Option local is Some; that local is reset to None in every iteration before the
+        site and every other assignment to it happens under the false flag: returns the guarded assignment blocks"""
+        for sw, vals, o in f.guard_edges(site):
+            if o.get("kind") != "discr" or "else" in vals or {o["vars"].get(v) for v in vals} != {"Some"}:
+                continue
+            m = re.fullmatch(r"_(\d+)", o.get("place", ""))
+            if not m or mir.base_type(o.get("ty", "")) != "Option":
+                continue
+            ol = int(m.group(1))
+            ds = f.defs.get(ol, [])
+            nones = [b for b, i, k, rv in ds if k == "assign" and rv["k"] == "agg" and rv.get("var") == "None"]
+            others = [b for b, i, k, rv in ds if not (k == "assign" and rv["k"] == "agg" and rv.get("var") == "None")]
+            reset = [b for b in nones if f.dominates(head, b) and f.in_cycle(b) and f.dominates(b, site) and
+                     all(f.dominates(b, x) for x in others)]
+            borrowed = [1 for kind, b, x in uses_of_local(f, ol)
+                        if (kind == "stmt" and x["k"] == "=" and x["rv"]["k"] in ("ref", "rawptr") and x["rv"].get("m"))
+                        or (kind == "term" and x["k"] == "call")]
+            if reset and others and not borrowed and all(k != "partial" for b, i, k, rv in ds):
+                return others
+        return None
+
+    flags = set()
+    deferred = []
+    for n, (bb, dop) in enumerate(wraps):
+        found = false_flag_guard(bb)
+        where = [bb]
+        if found is None:
+            dg = deferred_guard(bb)
+            if dg is not None:
+                fs = [false_flag_guard(b) for b in dg]
+                if all(x is not None for x in fs) and len({x[0] for x in fs}) == 1:
+                    found = fs[0]
+                    where = dg
+                    deferred += dg
+                    if not all(f.dominates(head, x[1]) and f.in_cycle(x[1]) for x in fs):
+                        found = (found[0], 0, found[2])
         rep.ob("R29.2", f"finish: link construction #{n} only when the in-link flag is false", found is not None,
                "a code span inside a link would be wrapped in a second <a>", f.loc(bb))
         if found:
             flags.add(found[0])
             rep.ob("R29.2", f"finish: link construction #{n} tests the flag's current value (read inside the loop)",
                    f.dominates(head, found[1]) and f.in_cycle(found[1]), "", f.loc(found[2]))
-            rep.ob("R29.2", f"finish: link construction #{n} is guarded by Event::Code", guard_has(f, bb, is_event, "Code"),
-                   "", f.loc(bb), nontrivial=False)
+            rep.ob("R29.2", f"finish: link construction #{n} is guarded by Event::Code",
+                   all(guard_has(f, b, is_event, "Code") for b in where), "", f.loc(bb), nontrivial=False)
     rep.ob("R29.2", "finish: one flag guards every link construction", len(flags) == 1, f"{sorted(flags)}", f.loc())
     if len(flags) != 1:
         return
@@ -635,6 +714,10 @@ def r2(rep, c):
     init = [(b, i) for b, i in clears if f.dominates(b, head) and not f.in_cycle(b)]
     rep.ob("R29.2", "finish: the flag starts false before the loop", len(init) == 1, f"{len(init)} initialisations", f.loc())
     inloop_clears = [x for x in clears if x not in init]
+    for n, db in enumerate(deferred):
+        later = f.reachable(db, avoid=[head]) & {b for b, _ in sets_ + clears}
+        rep.ob("R29.2", f"finish: the flag cannot change between the deferred link decision #{n} and the construction",
+               not later, "the decision is taken outside a link but used after the flag changed", f.loc(db))
     rep.floor("R29.2", "stores of true to the flag", len(sets_), 1)
     rep.floor("R29.2", "stores of false to the flag inside the loop", len(inloop_clears), 1)
     for n, (b, i) in enumerate(sets_):
@@ -679,18 +762,20 @@ def r2(rep, c):
         rep.ob("R29.2", f"finish: opened link #{n} is closed (Event::End pushed) before the next event", bool(ends) and
                f.all_paths_pass(sb, [head] + f.returns(), ends), "an <a> is left open", f.loc(sb))
         rep.ob("R29.2", f"finish: Event::Start #{n} is only built next to a guarded link construction",
-               any(f.dominates(wb, sb) for wb, _, _, _ in wraps), "", f.loc(sb))
+               any(f.dominates(wb, sb) for wb, _ in wraps), "", f.loc(sb))
     for n, eb in enumerate(ends):
         rep.ob("R29.2", f"finish: Event::End #{n} only after an Event::Start of the same wrap",
                any(f.dominates(sb, eb) for sb in starts), "", f.loc(eb), nontrivial=False)
-    for n, (bb, i, rv, s) in enumerate(wraps):
-        k = rv["fields"].index("dest_url") if "dest_url" in rv.get("fields", []) else None
-        o = through(f, rv["ops"][k]) if k is not None else {}
-        ok = o.get("kind") == "call" and o["call"].matches("HashMap::get")
-        recv = f.origin(o["call"].args[0]) if ok else {}
-        rep.ob("R29.2", f"finish: link #{n} points to a value stored in `hrefs`",
-               ok and recv.get("kind") == "arg" and recv.get("n") == 1 and ".hrefs" in recv.get("proj", []),
-               f"dest_url originates from {o.get('kind')} {o.get('call', '')}", f.loc(bb))
+    for n, (bb, dop) in enumerate(wraps):
+        srcs = [o for o in (origins_multi(f, dop) if dop is not None else [{}])
+                if not (o.get("kind") == "agg" and o["rv"].get("var") == "None")]
+        ok = bool(srcs)
+        for o in srcs:
+            good = o.get("kind") == "call" and o["call"].matches("HashMap::get")
+            recv = f.origin(o["call"].args[0]) if good else {}
+            ok = ok and good and recv.get("kind") == "arg" and recv.get("n") == 1 and ".hrefs" in recv.get("proj", [])
+        rep.ob("R29.2", f"finish: link #{n} points to a value stored in `hrefs`", ok,
+               f"dest_url originates from {[(o.get('kind'), str(o.get('call', ''))) for o in srcs]}", f.loc(bb))
 
     # written anchors are closed at once, so a following code span link is never inside an <a>
     nid = 0
